@@ -246,8 +246,9 @@ def rltForward (dt : Nat) (fast : Bool) (src : List Nat) (dstLen : Nat) : Res :=
       match a[0]? with
       | none => .fault "src-index"
       | some prev =>
-        (wr dstLen #[] (esc :: prev :: (if prev = esc then [0] else []))).bind fun o =>
-          fwdLoop a dstLen esc a.size 1 0 prev o
+        -- Go (after fix F44): `dstEnd := this.MaxEncodedLen(len(src))` — the decisions no longer depend on `len(dst)`
+        (wr (rltMaxEncodedLen src.length) #[] (esc :: prev :: (if prev = esc then [0] else []))).bind fun o =>
+          fwdLoop a (rltMaxEncodedLen src.length) esc a.size 1 0 prev o
 
 /-- Go: the value stored by `(*this.ctx)["dataType"] = dt` during `Forward` (when a ctx is present), if
     any: the detected type when it is not DT_UNDEFINED -/
